@@ -192,6 +192,14 @@ let handle (case : string) (out : string) : unit =
     count ("interp:tree:" ^ bucket size);
     if not (shapeb t) then
       report_diverge "C19" case_s "pest produced this pair tree" "shape predicate (derived from the grammar) rejects it";
+    (* the settings fragment of the proved round trip: the real tree must be settings_tree of its decoded items,
+       and the items must meet the theorem's hypotheses *)
+    if kind = "SET" then begin
+      match decode_settings t with
+      | Some items -> count "interp:settings-theorem-applies"; count ("settings:items:" ^ bucket (List.length items))
+      | None -> report_diverge "C19" case_s "real pair tree of a settings-only file"
+                  "not settings_tree of its decoded items / hypotheses of C19_roundtrip_settings_partial fail"
+    end;
     let m = string_of_result (interp t) in
     (match interp t with
      | POk _ -> count "interp:model:OK" | PErr -> count "interp:model:ERR" | PPanic _ -> count "interp:model:PANIC");
